@@ -736,3 +736,6 @@ add("C15", "metadata-update-drops-changesets-without-findings", "codemodder/util
 add("C03", "before-operand-loses-leading-blank-lines", REQW,
     [("        original_lines = lines.copy()\n", "        original_lines = lines.copy()\n        while original_lines and not original_lines[0].strip():\n            del original_lines[0]\n")],
     "fire", "R-DIFF-WRITE-AGREE", "RequirementsTxtWriter.add_to_file")
+add("C06", "results-preselected-by-rule", "codemodder/codemods/base_visitor.py",
+    [("                if result.match_location(pos_to_match, node)\n", "                if result.match_location(pos_to_match, node) and result.rule_id\n")],
+    "fire", "R-CANDIDATES-ALL", "results_for_node")
